@@ -27,9 +27,12 @@ _MISSING = object()
 
 
 class Interp:
-    def __init__(self, stubs=None, interpret_all=True):
+    def __init__(self, stubs=None, interpret_all=True, native_stubs=None):
         # stubs: 'module:qualname' -> python callable(interp, *args, **kwargs) -> value
         self.stubs = dict(stubs or {})
+        # native_stubs: native callable -> handler(interp, args, kwargs): assumed contracts of
+        # dependencies (ast.parse, symtable.symtable, open, ...), listed in the evidence
+        self.native_stubs = dict(native_stubs or {})
         self.call_depth = 0
         self.calls_interpreted = 0
         self.stub_calls = []
@@ -310,6 +313,8 @@ class Interp:
     # ---------------------------------------------------------------------------------
     # natives
     def call_native(self, fn, args, kwargs):
+        if _hashable(fn) and fn in self.native_stubs:
+            return self.native_stubs[fn](self, args, kwargs)
         b = BUILTIN_HANDLERS.get(fn) if _hashable(fn) else None
         if b is not None:
             return b(self, args, kwargs)
@@ -888,6 +893,20 @@ def _b_dict(it, args, kw):
     return r
 
 
+def _b_sorted(it, args, kw):
+    (x,) = args
+    if isinstance(x, Opaque):
+        f = x.props.get("sorted")
+        if f is None:
+            raise Unsupported(f"sorted() of opaque {x!r}")
+        return f(x)
+    if isinstance(x, IGen):
+        x = it.drain(x)
+    if contains_symbolic(x, 1):
+        raise Unsupported("sorted() of symbolic values")
+    return it.native(sorted, x, **kw)
+
+
 def _b_super(it, args, kw):
     raise Unsupported("super() with arguments")
 
@@ -956,6 +975,7 @@ BUILTIN_HANDLERS = {
     set: _b_set,
     dict: _b_dict,
     id: _b_id,
+    sorted: _b_sorted,
     print: _b_print,
     any: _b_any_all(any),
     all: _b_any_all(all),
